@@ -121,11 +121,8 @@ impl Runner for BashRunner {
         let shell = self.shell.to_owned();
 
         // render the bash script
-        // the state directory goes in quoted for the shell and after the other
-        // values, the shell expression goes in last: nothing that looks like a
-        // placeholder within either of them is being replaced
-        let state_directory_str =
-            shell_escape::unix::escape(self.state_directory.to_string_lossy()).to_string();
+        // (`\\builtin` and the quoted assignment: a test may have defined a
+        // function or alias named `export`, or switched on `set -k`)
         let mut environment = testcase
             .config
             .environment
@@ -137,31 +134,47 @@ impl Runner for BashRunner {
             })
             .map(|(key, value)| {
                 format!(
-                    "export {}={}",
-                    key,
-                    shell_escape::unix::escape(value.into())
+                    "\\builtin export '{}'",
+                    format!("{}={}", key, value).replace('\'', "'\\''")
                 )
             })
             .collect::<Vec<_>>();
         environment.sort();
         let environment = environment.join("\n");
+
+        // the template is taken apart at the places where values of the test
+        // go in (environment, shell expression), so that nothing within them
+        // that looks like a placeholder is being replaced; the state directory
+        // goes in quoted for the shell
+        let state_directory_str =
+            shell_escape::unix::escape(self.state_directory.to_string_lossy()).to_string();
         let (head, tail) = BASH_TEMPLATE
             .split_once("{shell_expression}")
             .expect("template contains the shell expression placeholder");
-        let head = head
-            .replace("{name}", name)
-            .replace("{excluded_variables}", &BASH_EXCLUDED_VARIABLES.join("|"))
-            .replace(
-                "{persist_state}",
-                if testcase.config.detached.unwrap_or(false) {
-                    "0"
-                } else {
-                    "1"
-                },
-            )
-            .replace("{environment}", &environment)
-            .replace("{state_directory}", &state_directory_str);
-        let expression = format!("{head}{}{tail}", &testcase.shell_expression);
+        let (head, middle) = head
+            .split_once("{environment}")
+            .expect("template contains the environment placeholder");
+        let fill = |part: &str| {
+            part.replace("{name}", name)
+                .replace("{excluded_variables}", &BASH_EXCLUDED_VARIABLES.join("|"))
+                .replace(
+                    "{persist_state}",
+                    if testcase.config.detached.unwrap_or(false) {
+                        "0"
+                    } else {
+                        "1"
+                    },
+                )
+                .replace("{state_directory}", &state_directory_str)
+        };
+        let expression = format!(
+            "{}{}{}{}{}",
+            fill(head),
+            environment,
+            fill(middle),
+            &testcase.shell_expression,
+            tail
+        );
         trace!("compiled expression {}", &expression);
 
         let mut testcase = testcase.clone();
